@@ -143,8 +143,8 @@ def plain_cycle(tasks, links):
 # ------------------------------------------------------------------------------------------
 # dyadic values (exact in binary floating point, so no float dust arises and the oracles can be strict);
 # the decimal class (0.1, 0.7 ...) is a smaller share of the workload and is judged with the dust guard (D4)
-EST = [None, 0, 1, 2, 3.5, 8, 12, 20, 0.25, 0.5, 0.75, 40, 5, 16, 1.5]
-SPENT = [0, 1, 2.5, 8, 50, 0.25]
+EST = [None, 0, 1, 2, 3.5, 8, 12, 20, 0.25, 0.5, 0.75, 40, 5, 16, 1.5, 0.125, 0.375, 2.0625]
+SPENT = [0, 1, 2.5, 8, 50, 0.25, 0.125, 0.0625]
 EST_DEC = [None, 0, 1, 3.5, 8, 20, 0.1, 0.2, 0.7, 40, 0.3, 2.4]
 SPENT_DEC = [0, 1, 2.5, 8, 50, 0.1]
 
@@ -249,7 +249,10 @@ def gen_case(rnd, direction=None, n_max=12, klass='wellformed', fixed=None, exte
                          'succ': sorted(rnd.sample(range(n), rnd.randint(1, min(2, n)))), 'estimate': rnd.choice([None, 3]),
                          'in_other_wbs': rnd.random() < 0.5,
                          # the outside predecessor may be a phase of another project with a child that has no dates yet
-                         'kid': ({'id': 300 + k, 'estimate': rnd.choice([2, 8])} if rnd.random() < 0.25 else None)})
+                         'kid': ({'id': 300 + k, 'estimate': rnd.choice([2, 8])} if rnd.random() < 0.25 else None),
+                         # the outside predecessor may be a former member: it sat two levels down in a branch of this WBS
+                         # that was removed after the link was made
+                         'via_removed_branch': rnd.random() < 0.25})
     if externals and direction == 'fwd' and rnd.random() < 0.12 and n:
         # a task outside the WBS that waits for members (never visited by the forward pass; part of the link structure)
         exts.append({'id': 150, 'start': None, 'end': None, 'succ': [], 'pred_of_ext': sorted(rnd.sample(range(n), rnd.randint(1, min(2, n)))),
@@ -320,6 +323,20 @@ def build(case, budget=None, log_queries=False):
     b.other_wbs = None
     for e in case.get('externals') or []:
         x = Task(e['id'], f"ext{e['id']}", start=e['start'], end=e['end'], estimate=e.get('estimate'))
+        if e.get('via_removed_branch') and e.get('succ') and not e.get('kid'):
+            try:
+                top = Task(700 + len(exts) * 3, 'former phase', start=e['start'], end=e['end'])
+                mid = Task(701 + len(exts) * 3, 'former step', start=e['start'], end=e['end'])
+                w.roots.append(top)
+                top.children.append(mid)
+                mid.children.append(x)
+                for i in e['succ']:
+                    objs[i].predecessors.append(x)
+                w.remove(top)
+                exts.append(x)
+                continue
+            except RuntimeError:
+                x = Task(e['id'], f"ext{e['id']}", start=e['start'], end=e['end'], estimate=e.get('estimate'))
         if e.get('in_other_wbs'):
             if b.other_wbs is None:
                 b.other_wbs = WBS()
